@@ -126,7 +126,7 @@ class C10(runner.Check):
   ]
   runs = {'quick': 3200, 'thorough': 40000}
   budget_s = {'quick': 100, 'thorough': 1200}
-  chunk = 20
+  chunk = 40
   probes = ['probe.overwrite', 'probe.algo-write', 'probe.user-write', 'probe.missing-trial-rejected',
             'probe.algo-missing-trial', 'probe.proto-value', 'probe.proto-default-payload', 'probe.proto-overwrites-proto', 'probe.empty-value', 'restart.clean',
             'probe.ns-roundtrip-checked', 'probe.adversarial-namespace', 'probe.long-lived-handle-read']
